@@ -194,6 +194,20 @@ func runCore(sc *Scenario, res *Result, keepLog bool) {
 			r.stuckOracle(reason, settle)
 			if reason == simrt.Done && settle == simrt.Quiescent && r.d != nil {
 				r.endOracles()
+				if (sc.Prop == "C05" || sc.Prop == "C08") && r.ctx.Err() == nil && sc.VerifyStall == 0 {
+					// a watcher that never called Done keeps the monitor alive,
+					// however many times the others have called theirs
+					for _, op := range r.ops {
+						if op.K == "done" {
+							name := "C05.lost-update"
+							if sc.Prop == "C08" {
+								name = "C08.monitor-exited-early"
+							}
+							r.probeReport(name, "other sources have called Done, this one has not", true)
+							break
+						}
+					}
+				}
 			}
 		}
 	}
